@@ -54,9 +54,19 @@ Definition join_c2s (bc : bcfg) (t : Z) : list frame :=
     fr t sbConfigFinish [] ].
 Definition profile_frame (bc : bcfg) (t : Z) : frame :=
   fr t cbLoginGameProfile [FUUID (offline_uuid (bc_name bc)); FString (bc_name bc); FVarInt 0].
-Definition join_s2c (bc : bcfg) (thr : Z) : list frame :=
-  (if compress_on thr then [fr (-1) cbLoginCompression [FVarInt thr]] else [])
-  ++ [ profile_frame bc (eff_thr thr); fr (eff_thr thr) cbConfigFinish [] ].
+(* the registries the server's ConfigHandler sends: none for the finish-only handler *)
+Definition regs_of (sc : scfg) : list (list N * list N) :=
+  match sc_cfg sc with CfgStock => sc_registries sc | CfgFinishOnly => [] end.
+Definition reg_frame (t : Z) (r : list N * list N) : frame :=
+  fr t cbConfigRegistryData [FString (fst r); FRaw (snd r)].
+Definition join_s2c (bc : bcfg) (sc : scfg) : list frame :=
+  let thr := sc_threshold sc in
+  (((if compress_on thr then [fr (-1) cbLoginCompression [FVarInt thr]] else []) ++ [profile_frame bc (eff_thr thr)])
+   ++ map (reg_frame (eff_thr thr)) (regs_of sc))
+  ++ [fr (eff_thr thr) cbConfigFinish []].
+(* the bot knows every registry the server sends and can read its content *)
+Definition regs_readable (bc : bcfg) (rs : list (list N * list N)) : Prop :=
+  Forall (fun r => bc_registry bc (fst r) (snd r) = Some true) rs.
 
 (* both ends agree: joined, same name, the offline UUID, the protocol number the bot sent, the same
    threshold; nothing is left in flight; the two transcripts are exactly the protocol's *)
@@ -68,7 +78,7 @@ Definition joined_state (bc : bcfg) (sc : scfg) (x : gsysT) : Prop :=
   b_thr (x_b x) = eff_thr (sc_threshold sc) /\ s_thr (x_s x) = eff_thr (sc_threshold sc) /\
   x_c2s x = [] /\ x_s2c x = [] /\
   x_c2s_hist x = join_c2s bc (eff_thr (sc_threshold sc)) /\
-  x_s2c_hist x = join_s2c bc (sc_threshold sc).
+  x_s2c_hist x = join_s2c bc sc.
 
 Definition B := true.
 Definition S := false.
@@ -77,10 +87,10 @@ Definition join_sched (compress : bool) : list bool :=
 
 Ltac gstep H1 H2 :=
   eapply strict_cons;
-  [ cbv -[thr_eq compress_on long_eq bot_ProtocolVersion offline_uuid];
+  [ cbv -[thr_eq compress_on long_eq bot_ProtocolVersion offline_uuid reg_chain];
     rewrite ?thr_eq_refl, ?long_eq_refl, ?H1, ?H2; reflexivity | ].
 Ltac gfinish := apply strict_nil.
-Ltac gnorm H1 := cbv -[thr_eq compress_on long_eq bot_ProtocolVersion offline_uuid]; rewrite ?thr_eq_refl, ?H1.
+Ltac gnorm H1 := cbv -[thr_eq compress_on long_eq bot_ProtocolVersion offline_uuid reg_chain map app]; rewrite ?thr_eq_refl, ?H1.
 
 Definition quiet (bc : bcfg) (sc : scfg) (f : gsysT) : Prop :=
   gstepof bc sc true f = None /\ gstepof bc sc false f = None.
@@ -92,7 +102,7 @@ Lemma join_reference bc sc :
             joined_state bc sc f /\ quiet bc sc f /\ clean f.
 Proof.
   destruct sc as [thr chk cfg blob status]. destruct bc as [name claim host port plugin cookie known time].
-  unfold accepts, joined_state, quiet, clean, eff_thr, join_c2s, join_s2c, profile_frame, eff_thr.
+  unfold accepts, joined_state, quiet, clean, eff_thr, join_c2s, join_s2c, regs_of, profile_frame, eff_thr.
   cbn [sc_cfg sc_checker sc_threshold bc_name bc_claim].
   intros -> Hacc.
   destruct (compress_on thr) eqn:Ethr; destruct chk as [c|].
@@ -149,34 +159,116 @@ Proof.
 Qed.
 
 (* ------------------------------------------------------------------ the stock server.Configurations *)
-Definition stock_state (bc : bcfg) (sc : scfg) (x : gsysT) : Prop :=
-  b_ph (x_b x) = BFailed stRegistry /\ s_ph (x_s x) = SJoined /\
-  x_c2s x = [] /\ x_s2c x = [fr (eff_thr (sc_threshold sc)) cbConfigFinish []].
-Definition stock_sched (compress : bool) : list bool :=
-  if compress then [B;B;S;S;S;S;B;B;B;S;S;S;B] else [B;B;S;S;S;B;B;S;S;S;B].
+Lemma strict_app bc sc a b x y r :
+  gstrict bc sc a x = Some y -> gstrict bc sc b y = r -> gstrict bc sc (a ++ b) x = r.
+Proof.
+  unfold gstrict. revert x. induction a as [|w t IH]; intros x Ha Hb.
+  - cbn in Ha. injection Ha as <-. exact Hb.
+  - cbn [app run_strict] in *. destruct (step_of bot srv (bot_act bc) (srv_act offline_uuid sc) b_thr s_thr w x); [|discriminate].
+    apply IH; assumption.
+Qed.
+
+Ltac gstep0 :=
+  eapply strict_cons;
+  [ cbv -[thr_eq compress_on long_eq bot_ProtocolVersion offline_uuid reg_chain];
+    rewrite ?thr_eq_refl; reflexivity | ].
+
+(* the registry packets: the server writes one, the bot reads it, and so on *)
+Definition regs_sched (rs : list (list N * list N)) : list bool := flat_map (fun _ => [S; B]) rs.
+Lemma regs_run bc sc t bn bu p sn su k : forall rs hc hs bs ss,
+  regs_readable bc rs ->
+  gstrict bc sc (regs_sched rs)
+    {| x_b := {| b_ph := BConfig; b_thr := t; b_name := bn; b_uuid := bu |};
+       x_s := {| s_ph := reg_chain rs k; s_thr := t; s_proto := p; s_name := sn; s_uuid := su |};
+       x_c2s := []; x_s2c := []; x_c2s_hist := hc; x_s2c_hist := hs; x_bseen := bs; x_sseen := ss |}
+  = Some
+    {| x_b := {| b_ph := BConfig; b_thr := t; b_name := bn; b_uuid := bu |};
+       x_s := {| s_ph := k; s_thr := t; s_proto := p; s_name := sn; s_uuid := su |};
+       x_c2s := []; x_s2c := []; x_c2s_hist := hc; x_s2c_hist := hs ++ map (reg_frame t) rs;
+       x_bseen := bs ++ map (fun _ => (cbConfigRegistryData, t, t)) rs; x_sseen := ss |}.
+Proof.
+  destruct bc as [name claim host port plugin cookie reg time].
+  induction rs as [|[rid content] rs IH]; intros hc hs bs ss Hr.
+  - cbn [regs_sched flat_map map reg_chain]. rewrite !app_nil_r. reflexivity.
+  - inversion Hr as [|? ? H1 H2]; subst. cbn [fst snd bc_registry] in H1.
+    cbn [regs_sched flat_map app map reg_chain]. fold (regs_sched rs).
+    replace (hs ++ reg_frame t (rid, content) :: map (reg_frame t) rs)
+      with ((hs ++ [reg_frame t (rid, content)]) ++ map (reg_frame t) rs)
+      by (rewrite <- app_assoc; reflexivity).
+    replace (bs ++ (cbConfigRegistryData, t, t) :: map (fun _ => (cbConfigRegistryData, t, t)) rs)
+      with ((bs ++ [(cbConfigRegistryData, t, t)]) ++ map (fun _ : list N * list N => (cbConfigRegistryData, t, t)) rs)
+      by (rewrite <- app_assoc; reflexivity).
+    eapply strict_cons;
+      [ cbv -[thr_eq compress_on long_eq bot_ProtocolVersion reg_chain]; reflexivity | ].
+    eapply strict_cons;
+      [ cbv -[thr_eq compress_on long_eq bot_ProtocolVersion reg_chain];
+        rewrite thr_eq_refl, H1; reflexivity | ].
+    apply IH. exact H2.
+Qed.
+
+(* then: finish, the bot's acknowledgement, and the server's wait loop sees it *)
+Lemma finish_run bc sc t bn bu p sn su hc hs bs ss :
+  gstrict bc sc [S; B; B; S]
+    {| x_b := {| b_ph := BConfig; b_thr := t; b_name := bn; b_uuid := bu |};
+       x_s := {| s_ph := SSend cbConfigFinish [] SConfWait; s_thr := t; s_proto := p; s_name := sn; s_uuid := su |};
+       x_c2s := []; x_s2c := []; x_c2s_hist := hc; x_s2c_hist := hs; x_bseen := bs; x_sseen := ss |}
+  = Some
+    {| x_b := {| b_ph := BJoined; b_thr := t; b_name := bn; b_uuid := bu |};
+       x_s := {| s_ph := SJoined; s_thr := t; s_proto := p; s_name := sn; s_uuid := su |};
+       x_c2s := []; x_s2c := []; x_c2s_hist := hc ++ [fr t sbConfigFinish []];
+       x_s2c_hist := hs ++ [fr t cbConfigFinish []];
+       x_bseen := bs ++ [(cbConfigFinish, t, t)]; x_sseen := ss ++ [(sbConfigFinish, t, t)] |}.
+Proof.
+  destruct bc as [name claim host port plugin cookie reg time].
+  do 4 gstep0. reflexivity.
+Qed.
+
+Lemma seen_regs_ok id t (rs : list (list N * list N)) :
+  seen_ok (map (fun _ => (id, t, t)) rs) = true.
+Proof. induction rs as [|r rs IH]; [reflexivity|]. cbn. rewrite thr_eq_refl. exact IH. Qed.
+Lemma seen_ok_app a b : seen_ok (a ++ b) = seen_ok a && seen_ok b.
+Proof. apply forallb_app. Qed.
+
+Definition stock_prefix (compress : bool) : list bool :=
+  if compress then [B;B;S;S;S;S;B;B;B;S] else [B;B;S;S;S;B;B;S].
+Definition stock_sched (compress : bool) (rs : list (list N * list N)) : list bool :=
+  stock_prefix compress ++ regs_sched rs ++ [S; B; B; S].
+
+Ltac stock_tail Hr :=
+  eapply strict_app; [apply regs_run; exact Hr|]; apply finish_run.
+Ltac stock_state_ok Ethr :=
+  cbv -[thr_eq compress_on long_eq bot_ProtocolVersion reg_chain map app seen_ok];
+  rewrite ?thr_eq_refl, ?Ethr;
+  repeat split; try reflexivity;
+  rewrite ?seen_ok_app, ?seen_regs_ok; cbn; rewrite ?thr_eq_refl; reflexivity.
 
 Lemma stock_reference bc sc :
-  sc_cfg sc = CfgStock -> accepts sc (bc_name bc) ->
-  exists f, gstrict bc sc (stock_sched (compress_on (sc_threshold sc))) (join_init bc) = Some f /\
-            stock_state bc sc f /\ quiet bc sc f /\ clean f.
+  sc_cfg sc = CfgStock -> accepts sc (bc_name bc) -> regs_readable bc (sc_registries sc) ->
+  exists f, gstrict bc sc (stock_sched (compress_on (sc_threshold sc)) (sc_registries sc)) (join_init bc) = Some f /\
+            joined_state bc sc f /\ quiet bc sc f /\ clean f.
 Proof.
-  destruct sc as [thr chk cfg blob status]. destruct bc as [name claim host port plugin cookie known time].
-  unfold accepts, stock_state, quiet, clean, eff_thr.
-  cbn [sc_cfg sc_checker sc_threshold bc_name bc_claim].
-  intros -> Hacc.
+  destruct sc as [thr chk cfg regs status].
+  unfold accepts, joined_state, quiet, clean, eff_thr, join_c2s, join_s2c, regs_of, profile_frame, eff_thr, stock_sched.
+  cbn [sc_cfg sc_checker sc_threshold sc_registries].
+  intros -> Hacc Hr.
+  destruct bc as [name claim host port plugin cookie reg time]. cbn [bc_name bc_claim] in *.
   destruct (compress_on thr) eqn:Ethr; destruct chk as [c|].
   - eexists. split.
-    { unfold stock_sched, join_init, sys_init, bot_join_init. do 13 gstep Ethr Hacc. gfinish. }
-    gnorm Ethr. repeat split; reflexivity.
+    { unfold stock_prefix, join_init, sys_init, bot_join_init. eapply strict_app.
+      { do 10 gstep Ethr Hacc. gfinish. } stock_tail Hr. }
+    stock_state_ok Ethr.
   - eexists. split.
-    { unfold stock_sched, join_init, sys_init, bot_join_init. do 13 gstep Ethr Ethr. gfinish. }
-    gnorm Ethr. repeat split; reflexivity.
+    { unfold stock_prefix, join_init, sys_init, bot_join_init. eapply strict_app.
+      { do 10 gstep Ethr Ethr. gfinish. } stock_tail Hr. }
+    stock_state_ok Ethr.
   - eexists. split.
-    { unfold stock_sched, join_init, sys_init, bot_join_init. do 11 gstep Ethr Hacc. gfinish. }
-    gnorm Ethr. repeat split; reflexivity.
+    { unfold stock_prefix, join_init, sys_init, bot_join_init. eapply strict_app.
+      { do 8 gstep Ethr Hacc. gfinish. } stock_tail Hr. }
+    stock_state_ok Ethr.
   - eexists. split.
-    { unfold stock_sched, join_init, sys_init, bot_join_init. do 11 gstep Ethr Ethr. gfinish. }
-    gnorm Ethr. repeat split; reflexivity.
+    { unfold stock_prefix, join_init, sys_init, bot_join_init. eapply strict_app.
+      { do 8 gstep Ethr Ethr. gfinish. } stock_tail Hr. }
+    stock_state_ok Ethr.
 Qed.
 
 (* ------------------------------------------------------------------ status ping *)
@@ -240,20 +332,16 @@ Proof.
 Qed.
 
 Theorem join_all bc sc :
-  sc_cfg sc = CfgFinishOnly -> accepts sc (bc_name bc) ->
+  accepts sc (bc_name bc) -> regs_readable bc (regs_of sc) ->
   exists (f : gsysT) (n : nat), joined_state bc sc f /\ every_interleaving bc sc (join_init bc) f n.
 Proof.
-  intros Hc Ha. destruct (join_reference bc sc Hc Ha) as [f [R [J [Q C]]]].
-  exists f, (length (join_sched (compress_on (sc_threshold sc)))). split; [exact J|].
-  exact (reference_all bc sc _ _ f R Q C).
-Qed.
-Theorem stock_all bc sc :
-  sc_cfg sc = CfgStock -> accepts sc (bc_name bc) ->
-  exists (f : gsysT) (n : nat), stock_state bc sc f /\ every_interleaving bc sc (join_init bc) f n.
-Proof.
-  intros Hc Ha. destruct (stock_reference bc sc Hc Ha) as [f [R [J [Q C]]]].
-  exists f, (length (stock_sched (compress_on (sc_threshold sc)))). split; [exact J|].
-  exact (reference_all bc sc _ _ f R Q C).
+  intros Ha Hr. unfold regs_of in Hr. destruct (sc_cfg sc) eqn:Hc.
+  - destruct (join_reference bc sc Hc Ha) as [f [R [J [Q C]]]].
+    exists f, (length (join_sched (compress_on (sc_threshold sc)))). split; [exact J|].
+    exact (reference_all bc sc _ _ f R Q C).
+  - destruct (stock_reference bc sc Hc Ha Hr) as [f [R [J [Q C]]]].
+    exists f, (length (stock_sched (compress_on (sc_threshold sc)) (sc_registries sc))). split; [exact J|].
+    exact (reference_all bc sc _ _ f R Q C).
 Qed.
 Theorem refuse_all bc sc reason :
   refuses sc (bc_name bc) reason ->
